@@ -6,7 +6,7 @@
     c05.verify  scriptSig scriptPubKey flags tx idx
                                                 Model.ScriptEval.verifyScript with the concrete
                                                 signature checker below → `ok` | `err:<family>`
-    c05.case    scriptSig scriptPubKey flags tx idx ht edit
+    c05.case    scriptSig scriptPubKey flags tx idx hts edit      (hts: `,`-list, one hash type per signature, may be empty)
                                                 → `<base>#<edited>#<tx'>#<class>#<pred>`
         base    = verification against `tx`, edited = against `tx' = apply edit tx` (same scriptSig,
                   scriptPubKey, index), class = table row of the edit for (ht, idx), pred = what the
@@ -15,7 +15,9 @@
                             both transactions outside the regular case: digest is the constant 1)
                   `differs` (some committed part changed, or the edit moves the transaction into /
                             out of the "return one" case)
-        edit `-` = no edit (class `-`, pred `same`).
+        edit `-` = no edit (class `-`, pred `same`).  An edit that is not `Spec.Commit.applicable` (Python's
+        list operation raises IndexError) is answered `<base>#inapplicable#<tx>#<class>#same`.
+        Insertion positions beyond the end append (`list.insert`).
 
   Every verification is run in TWO contexts and the verdicts must coincide:
     `txCtx realHashes ecdsaCheck tx idx`  reference signature hash `Spec.Sighash.legacySighash` (Props/C05 Part 3)
@@ -99,21 +101,28 @@ def parseEdit? (s : String) : Option Edit :=
   | "wt" :: rest => do pure (.setWitness (← TxFmt.parseWit? (":".intercalate rest)))
   | _ => none
 
-def className (ht idx : Nat) (e : Edit) : String :=
-  if Committed ht idx e then "committed" else "uncommitted"
+/-- table row of the edit for the hash types of the signatures involved (one per signature; several
+    when the signatures of a multisig spend carry different hash types; none for 0-of-n) -/
+def className (hts : List Nat) (idx : Nat) (e : Edit) : String :=
+  if hts.isEmpty then "-" else if hts.any (fun ht => Committed ht idx e) then "committed" else "uncommitted"
 
-/-- what the table theorems predict for the digest that is verified -/
-def predict (ht idx : Nat) (e : Edit) (t : Tx) : String :=
+/-- digest-level prediction for ONE hash type, from the parts (Props/C05.lean):
+    both transactions regular: same iff no committed part changed (`preimage_eq_iff_agree` + `hcr`);
+    both in the "return one" case: same (`irregular_sighash`); otherwise different -/
+def predictSem (ht idx : Nat) (t t' : Tx) : Bool :=      -- true = same digest
+  let r := decide (Regular ht idx t)
+  let r' := decide (Regular ht idx t')
+  if r && r' then (changedParts ht idx t t').isEmpty else (!r && !r')
+
+/-- prediction for the verdict: every supplied signature must still verify, so the verdict can stay
+    only if the digest stays for every hash type involved.  Cross-check of the syntactic table: an
+    edit that is `Uncommitted` (and `insertSafe`) must be predicted `same` (`uncommitted_edit_preserves`),
+    otherwise the reply is `table-contradiction`. -/
+def predict (hts : List Nat) (idx : Nat) (e : Edit) (t : Tx) : String :=
   let t' := apply e t
-  if Uncommitted ht idx e then "same"                         -- uncommitted_edit_preserves
-  else
-    let r := decide (Regular ht idx t)
-    let r' := decide (Regular ht idx t')
-    if r && r' then
-      (if (changedParts ht idx t t').isEmpty then "same"      -- agree_sighash_eq + changedParts_spec
-       else "differs")                                        -- committed_edit_changes
-    else if !r && !r' then "same"                             -- irregular_sighash
-    else "differs"
+  let sems := hts.map fun ht => predictSem ht idx t t'
+  let bad := hts.any fun ht => Uncommitted ht idx e && insertSafe idx e t && !predictSem ht idx t t'
+  if bad then "table-contradiction" else if sems.all id then "same" else "differs"
 
 def hash160 (x : Bytes) : Bytes := Model.ScriptEval.Real.realHashes.hash160 x
 
@@ -137,7 +146,7 @@ def handle (op : String) (args : List String) : Option String :=
   match op, args with
   | "c05.table", [ht, i, e] => some <|
       match parseNat? ht, parseNat? i, parseEdit? e with
-      | some ht, some i, some e => className ht i e
+      | some ht, some i, some e => className [ht] i e
       | _, _, _ => badArgs
   | "c05.apply", [e, tx] => some <|
       match parseEdit? e, TxFmt.parseTx? tx with
@@ -155,7 +164,7 @@ def handle (op : String) (args : List String) : Option String :=
       | some sig, some spk, some fl, some tx, some idx => verify sig spk fl tx idx
       | _, _, _, _, _ => badArgs
   | "c05.case", [sig, spk, fl, tx, idx, ht, e] => some <|
-      match parseHex? sig, parseHex? spk, parseFlags? fl, TxFmt.parseTx? tx, parseNat? idx, parseNat? ht with
+      match parseHex? sig, parseHex? spk, parseFlags? fl, TxFmt.parseTx? tx, parseNat? idx, parseNatList? ht with
       | some sig, some spk, some fl, some tx, some idx, some ht =>
           if e == "-" then
             let base := verify sig spk fl tx idx
@@ -163,6 +172,8 @@ def handle (op : String) (args : List String) : Option String :=
           (match parseEdit? e with
            | some e =>
                let base := verifyRef sig spk fl tx idx
+               -- Python cannot carry the edit out (IndexError of the list operation): nothing to verify
+               if !applicable e tx then s!"{base}#inapplicable#{TxFmt.showTx tx}#{className ht idx e}#same" else
                let tx' := apply e tx
                s!"{base}#{verify sig spk fl tx' idx}#{TxFmt.showTx tx'}#{className ht idx e}#{predict ht idx e tx}"
            | none => badArgs)
